@@ -12,6 +12,7 @@ import (
 	"context"
 	"io"
 	"sync"
+	"time"
 
 	"google.golang.org/genproto/googleapis/api/annotations"
 	"google.golang.org/grpc"
@@ -20,6 +21,7 @@ import (
 	"google.golang.org/protobuf/reflect/protoreflect"
 	"larking.io/larking"
 
+	"verif/internal/backend"
 	"verif/internal/vschema"
 )
 
@@ -40,6 +42,7 @@ func get(p string) *annotations.HttpRule {
 //	CS(stream Chunk) Chunk            POST /l/cs body:*
 //	SS(Chunk) stream Chunk            POST /l/ss body:*
 //	Bidi(stream Chunk) stream Chunk   POST /l/bidi body:* | WEBSOCKET /l/ws body:*
+//	EchoP(Chunk) Chunk                POST /l/echop/{tag} body:*  (body plus a URL-bound field)
 //	EchoR(Req) Chunk                  POST /l/echor body:*   (messages with repeated fields)
 //	CSR(stream Req) Chunk             POST /l/csr body:*
 //	Upload(stream Upload) Chunk       POST /l/upload/{name} body:file
@@ -57,6 +60,7 @@ func limFile() *vschema.File {
 		{Name: "CS", In: "vf.Chunk", Out: "vf.Chunk", CS: true, Rule: post("/l/cs", "*")},
 		{Name: "SS", In: "vf.Chunk", Out: "vf.Chunk", SS: true, Rule: post("/l/ss", "*")},
 		{Name: "Bidi", In: "vf.Chunk", Out: "vf.Chunk", CS: true, SS: true, Rule: bidi},
+		{Name: "EchoP", In: "vf.Chunk", Out: "vf.Chunk", Rule: post("/l/echop/{tag}", "*")},
 		{Name: "EchoR", In: "vf.Req", Out: "vf.Chunk", Rule: post("/l/echor", "*")},
 		{Name: "CSR", In: "vf.Req", Out: "vf.Chunk", CS: true, Rule: post("/l/csr", "*")},
 		{Name: "Upload", In: "vf.Upload", Out: "vf.Chunk", CS: true, Rule: post("/l/upload/{name}", "file")},
@@ -159,6 +163,7 @@ func (h *hub) lookup(ctx context.Context) *live {
 	h.mu.Lock()
 	h.orphan++
 	h.mu.Unlock()
+
 	return newLive(&Case{}) // not attached to any case: nothing is concluded from it
 }
 
@@ -333,6 +338,57 @@ func newMux(h *hub, lrecv, lsend int) (*larking.Mux, error) {
 		return nil, err
 	}
 	if err := larking.VerifRegisterService(mux, serviceDesc(fd.Services().ByName("Lim"), h), struct{}{}); err != nil {
+		return nil, err
+	}
+	return mux, nil
+}
+
+// backendImpl serves the same recording handlers on a real grpc.Server (the
+// back-end of the proxied lanes): there the "handler" of the statement is the
+// back-end behind larking's RegisterConn forwarder.
+type backendImpl struct{ h *hub }
+
+func (b backendImpl) Unary(ctx context.Context, md protoreflect.MethodDescriptor, in proto.Message) (proto.Message, error) {
+	l := b.h.lookup(ctx)
+	l.mu.Lock()
+	l.entered++
+	l.delivered = append(l.delivered, proto.Clone(in))
+	l.returned = true
+	l.mu.Unlock()
+	return replyMsg(l.c, md, 0), nil
+}
+
+func (b backendImpl) Stream(md protoreflect.MethodDescriptor, ss grpc.ServerStream) error {
+	return b.h.stream(md, ss)
+}
+
+// startBackend serves the engine's service on a loopback grpc.Server with
+// server reflection.
+func startBackend(h *hub) (*backend.Backend, error) {
+	fd, err := schema()
+	if err != nil {
+		return nil, err
+	}
+	return backend.Start("limits", true, backend.Svc{SD: fd.Services().ByName("Lim"), Impl: backendImpl{h}})
+}
+
+// newProxyMux builds a mux with the given limits that reaches the service
+// through RegisterConn.
+func newProxyMux(be *backend.Backend, lrecv, lsend int) (*larking.Mux, error) {
+	var opts []larking.MuxOption
+	if lrecv > 0 {
+		opts = append(opts, larking.MaxReceiveMessageSizeOption(lrecv))
+	}
+	if lsend > 0 {
+		opts = append(opts, larking.MaxSendMessageSizeOption(lsend))
+	}
+	mux, err := larking.NewMux(opts...)
+	if err != nil {
+		return nil, err
+	}
+	ctx, cancel := context.WithTimeout(context.Background(), 20*time.Second)
+	defer cancel()
+	if err := mux.RegisterConn(ctx, be.CC); err != nil {
 		return nil, err
 	}
 	return mux, nil
